@@ -323,18 +323,12 @@ class Facts:
             for im in d['impls']:
                 im['crate'] = cr
                 self.impls.append(im)
-        import symex as _symex
-        _symex.PROMOTED.clear()
-        _symex._PROMOTED_CACHE.clear()
-        for k, b in self.bodies.items():
-            if b.kind == 'Promoted':
-                _symex.PROMOTED[k] = b
-        ID2DEF.clear()
+        self.register()
         self.by_id = {}
         for k, b in self.bodies.items():
             if b.d.get('id'):
                 self.by_id[b.d['id']] = k
-                ID2DEF[b.d['id']] = k
+        self.register()
         # trait item -> implementing defs (class hierarchy fallback); keyed by crate-independent id
         self.trait_impls = collections.defaultdict(list)
         self.trait_impls_by_id = collections.defaultdict(list)
@@ -346,6 +340,19 @@ class Facts:
                     self.trait_impls_by_id[it['trait_item_id']].append((it['def'], im))
         self._cg = None
         self._rcg = None
+
+    def register(self):
+        """make this fact base the one that Call.name / symex constants resolve against"""
+        import symex as _symex
+        _symex.PROMOTED.clear()
+        _symex._PROMOTED_CACHE.clear()
+        for k, b in self.bodies.items():
+            if b.kind == 'Promoted':
+                _symex.PROMOTED[k] = b
+        ID2DEF.clear()
+        for k, b in self.bodies.items():
+            if b.d.get('id'):
+                ID2DEF[b.d['id']] = k
 
     @classmethod
     def source_line(cls, file, line):
